@@ -71,12 +71,12 @@ Definition w_holds_o (p : wpc) : bool :=
   match p with
   | WHw1 (SWr _) | WHwF _ | WHwEP _ | WHwEW _ | WHwL1 _ | WHwL2 _ | WHwLP _ | WHwLW _ | WHwRel
   | WWs3 _ | WCdRel | WWs4 _ | WWs5 | WWsF _ | WWs6 | WWsP | WWsRel
-  | WSc1 | WSc2 _ | WScF | WScH1 _ | WScH2 | WScH3 | WScH4 | WScRel | WScX => true
+  | WSc1 | WSc2 _ | WScF | WScRel | WScX => true
   | _ => false
   end.
 Definition w_sc (p : wpc) : bool :=
   match p with
-  | WScA | WSc1 | WSc2 _ | WScF | WScH1 _ | WScH2 | WScH3 | WScH4 | WScRel | WScX | WScX2 => true
+  | WScA | WSc1 | WSc2 _ | WScF | WScRel | WScX | WScX2 => true
   | _ => false
   end.
 Definition w_holds_r (p : wpc) : bool :=
